@@ -55,6 +55,12 @@ func main() {
 			tier = os.Args[2]
 		}
 		os.Exit(loadfam.CheckMerge(os.Args[1], tier))
+	case "C11":
+		tier := "quick"
+		if len(os.Args) > 2 {
+			tier = os.Args[2]
+		}
+		os.Exit(loadfam.CheckC11(tier))
 	case "C10":
 		tier := "quick"
 		if len(os.Args) > 2 {
